@@ -9,7 +9,8 @@ EXTENDS Handshake, Json
 
 Flags == <<"ReplyOffsetsMoved", "MethodSlice11", "FlagBitOther", "SidLittleEndian",
            "WindowInclusive", "NoTimestampCheck", "IgnoreDecryptError", "SkipMethodCheck", "SkipUidCheck", "AdminNoSid",
-           "LowOrderAccepted", "SkipRecheckSessionless", "SkewSubSaturates", "ZeroUidBypassNoAdmin">>
+           "LowOrderAccepted", "SkipRecheckSessionless", "SkewSubSaturates", "ZeroUidBypassNoAdmin",
+           "MethodCheckOnOpenOnly", "IdleSkippedInUpload">>
 InvNames == <<"Agreement", "KeyAgreement", "Soundness", "AdminGate">>
 InvVals  == <<Agreement, KeyAgreement, Soundness, AdminGate>>
 
